@@ -7,6 +7,7 @@ TEXTS = {
  'C06': ("Bounded model checking (full operand width) of every checked arithmetic kernel instantiation against exact i128 arithmetic, checked SUM accumulation and cross-partition SUM combine.", "§3 C06"),
  'C07': ("Bounded model checking of the column re-encode step of compaction: the ColumnBuffer append sequences compact() performs keep NULL positions and values for all values/null maps within the shapes. Partition swap, eviction/reload and the disk round trip (lock/IO code) are outside the claim.", "§3 C07"),
  'C13': ("Bounded model checking of the NULL-padding kernels that make a late or absent column read as NULL. The catalogue itself (HashSet state shared across threads) is outside the claim.", "§3 C13"),
+ 'C12': ("Bounded model checking of the LIMIT/OFFSET literal conversion and the result-shaping arithmetic (arithmetic slices of the real MIR, every counterexample confirmed through the public API). sqlparser's tokenizer/parser and channel delivery are outside the claim.", "§3 C12"),
 }
 NA_REASON = {
  'C09': "crash points of std::fs effects issued from thread-pool jobs: neither Kani (no threads/FS) nor a MIR encoding can execute them; see DESIGN.md §4",
